@@ -1,0 +1,44 @@
+/*
+ * Copyright (C) 2016-2019 Istituto Italiano di Tecnologia (IIT)
+ *
+ * This software may be modified and distributed under the terms of the
+ * BSD 3-Clause license. See the accompanying LICENSE file for details.
+ */
+
+#ifndef ATOMICFLAG_H
+#define ATOMICFLAG_H
+
+#include <atomic>
+
+namespace bfl {
+    class AtomicFlag;
+}
+
+
+/**
+ * A boolean flag that can be read and written from different threads without data races
+ * and, unlike std::atomic<bool>, can be copied and moved (the value is copied), so that
+ * classes holding it keep their defaulted copy/move operations.
+ */
+class bfl::AtomicFlag
+{
+public:
+    AtomicFlag(const bool value = false) noexcept : value_(value) { }
+
+    AtomicFlag(const AtomicFlag& other) noexcept : value_(other.value_.load()) { }
+
+    AtomicFlag(AtomicFlag&& other) noexcept : value_(other.value_.load()) { }
+
+    AtomicFlag& operator=(const AtomicFlag& other) noexcept { value_ = other.value_.load(); return *this; }
+
+    AtomicFlag& operator=(AtomicFlag&& other) noexcept { value_ = other.value_.load(); return *this; }
+
+    AtomicFlag& operator=(const bool value) noexcept { value_ = value; return *this; }
+
+    operator bool() const noexcept { return value_; }
+
+private:
+    std::atomic<bool> value_;
+};
+
+#endif /* ATOMICFLAG_H */
